@@ -9,13 +9,16 @@ package main
 // wins the race with the goroutine's first instruction waits for nothing.)
 
 import (
+	"context"
 	"fmt"
 	"net"
 	"runtime"
 	"sync/atomic"
 	"time"
 
+	"github.com/insomniacslk/dhcp/dhcpv4"
 	"github.com/insomniacslk/dhcp/dhcpv4/nclient4"
+	"github.com/insomniacslk/dhcp/dhcpv6"
 	"github.com/insomniacslk/dhcp/dhcpv6/nclient6"
 )
 
@@ -100,4 +103,95 @@ func cliNewCloseProbe(v6 bool, rounds int) (late int, what string) {
 		what = fmt.Sprintf("%d of %d clients that were closed right after their creation read from their connection AFTER Close had returned: the receive loop started behind Close's back", late, rounds)
 	}
 	return
+}
+
+// Probe "saturated stream" of oracle c11 (free-running: under virtual time a gapless
+// stream never lets the clock advance): the connection answers every ReadFrom at once
+// with a same-id datagram the matcher rejects, for as long as the call lasts.  The call
+// still ends with the no-response error when its schedule is over - T x (2^n - 1), here
+// 50 ms x 3 - "whatever traffic arrives"; the probe allows 100 times that.
+// (seeded change C11-13: deadline, context and Close looked at only when the queue of
+// received datagrams is empty.)
+type floodConn struct {
+	v6     bool
+	closed chan struct{}
+	idx    atomic.Int64
+}
+
+func (c *floodConn) ReadFrom(b []byte) (int, net.Addr, error) {
+	select {
+	case <-c.closed:
+		return 0, nil, net.ErrClosed
+	default:
+	}
+	i := int(c.idx.Add(1))
+	d := datagramFor(c.v6, "rej", uint32(cliMXidBase+1), i&0x7fff)
+	return copy(b, d), &net.UDPAddr{IP: net.IP{10, 0, 0, 1}, Port: 67}, nil
+}
+func (c *floodConn) WriteTo(b []byte, a net.Addr) (int, error) { return len(b), nil }
+func (c *floodConn) Close() error {
+	select {
+	case <-c.closed:
+	default:
+		close(c.closed)
+	}
+	return nil
+}
+func (c *floodConn) LocalAddr() net.Addr                { return &net.UDPAddr{IP: net.IPv4zero, Port: 68} }
+func (c *floodConn) SetDeadline(t time.Time) error      { return nil }
+func (c *floodConn) SetReadDeadline(t time.Time) error  { return nil }
+func (c *floodConn) SetWriteDeadline(t time.Time) error { return nil }
+
+// cliFloodProbe returns "" when the call ended in time with the no-response error.
+func cliFloodProbe(v6 bool) string {
+	const T = 50 * time.Millisecond
+	conn := &floodConn{v6: v6, closed: make(chan struct{})}
+	done := make(chan string, 1)
+	start := time.Now()
+	var closeFn func()
+	if v6 {
+		c, err := nclient6.NewWithConn(conn, clHW, nclient6.WithTimeout(T), nclient6.WithRetry(2))
+		if err != nil {
+			return ""
+		}
+		closeFn = func() { c.Close() }
+		go func() {
+			_, err := c.SendAndRead(context.Background(), clDest6, req6(uint32(cliMXidBase+1)), func(m *dhcpv6.Message) bool {
+				time.Sleep(400 * time.Microsecond) // a matcher that looks things up: the queue is never empty
+				cl, _, ok := tagOf6(m)
+				return ok && cl == 'A'
+			})
+			if err == nclient6.ErrNoResponse {
+				done <- ""
+			} else {
+				done <- fmt.Sprint("the call ended with ", err, " instead of the no-response error")
+			}
+		}()
+	} else {
+		c, err := nclient4.NewWithConn(conn, clHW, nclient4.WithTimeout(T), nclient4.WithRetry(2))
+		if err != nil {
+			return ""
+		}
+		closeFn = func() { c.Close() }
+		go func() {
+			_, err := c.SendAndRead(context.Background(), clDest4, req4(uint32(cliMXidBase+1)), func(p *dhcpv4.DHCPv4) bool {
+				time.Sleep(400 * time.Microsecond)
+				cl, _, ok := tagOf4(p)
+				return ok && cl == 'A'
+			})
+			if err == nclient4.ErrNoResponse {
+				done <- ""
+			} else {
+				done <- fmt.Sprint("the call ended with ", err, " instead of the no-response error")
+			}
+		}()
+	}
+	var res string
+	select {
+	case res = <-done:
+	case <-time.After(100 * 3 * T):
+		res = fmt.Sprintf("a call with timeout %v and 2 tries (schedule over at %v) is still running after %v under a gapless stream of same-id datagrams its matcher rejects", T, 3*T, time.Since(start).Round(time.Millisecond))
+	}
+	closeFn()
+	return res
 }
